@@ -33,6 +33,12 @@ fn tier_of(s: &str) -> Tier {
 fn main() {
     // the one environment variable the reference evaluator knows about (`env` / `$`)
     std::env::set_var("JV_FIXED", "fixed-value");
+    // the environment a process inherits need not be text: one variable whose value is not valid UTF-8 (reading any
+    // OTHER variable must not care)
+    {
+        use std::os::unix::ffi::OsStrExt;
+        std::env::set_var("JV_NOT_TEXT", std::ffi::OsStr::from_bytes(b"caf\xe9\xff"));
+    }
     std::env::remove_var("JV_UNSET");
     let args: Vec<String> = std::env::args().collect();
     if args.len() < 2 {
